@@ -393,7 +393,7 @@ def c10_gen(tier, rng):
         a['jseed'] = int(rng.integers(0, 10 ** 6))
         return a
 
-    n_formula = 10 if quick else 70
+    n_formula = 40 if quick else 300
     for k in range(n_formula):
         nz = int(rng.integers(7, 17))
         R0 = float([1.7, 5.0, 12.0, 239.8081535][int(rng.integers(0, 4))])
@@ -417,7 +417,7 @@ def c10_gen(tier, rng):
                           v=np.sort(v).tolist(), dt=dt, nprocs=list(pg), rank=rank, fkind=['random', 'smooth'][k % 2],
                           dseed=int(rng.integers(0, 2 ** 31))))
     # whole-cell displacements: dyadic dz, v, dt so that v*dt/dz is an exact integer; iota = 0 (exact shift) or r = 0 (no b_z change)
-    n_whole = 5 if quick else 30
+    n_whole = 14 if quick else 60
     for k in range(n_whole):
         nz = int(rng.integers(7, 15))
         dz = [0.5, 0.25, 1.0, 2.0][k % 4]
@@ -428,7 +428,7 @@ def c10_gen(tier, rng):
                           iota=iota, r=[0.0, 3.0] if iota else [0.5, 3.0, 14.0], v=v, dt=dt, nprocs=[1, 1], rank=[0, 0],
                           fkind='random', dseed=int(rng.integers(0, 2 ** 31))))
     # almost whole-cell displacement (on-node special case vs. division by a tiny distance)
-    for k in range(2 if quick else 8):
+    for k in range(4 if quick else 16):
         nz = int(rng.integers(7, 13))
         dz = 0.5
         eps = [1e-15, -1e-15, 3e-13, -2e-12][k % 4]
@@ -436,7 +436,7 @@ def c10_gen(tier, rng):
                           dt=float(dz * (1 + eps) * [1, -3, 5][k % 3]), nprocs=[1, 1], rank=[0, 0], fkind='random',
                           dseed=int(rng.integers(0, 2 ** 31))))
     # grid-level step on process grids
-    grids = [(1, 1), (2, 1), (1, 2), (2, 2)] if quick else [(1, 1), (2, 1), (1, 2), (2, 2), (3, 1), (3, 2), (1, 3), (2, 3)]
+    grids = [(1, 1), (2, 1), (1, 2), (2, 2), (3, 1)] if quick else [(1, 1), (2, 1), (1, 2), (2, 2), (3, 1), (3, 2), (1, 3), (2, 3), (4, 1), (2, 2), (1, 4)]
     for k, pg in enumerate(grids):
         nz = int(rng.integers(7, 10))
         R0 = float([1.7, 4.0][k % 2])
@@ -623,7 +623,7 @@ def c11_gen(tier, rng):
             dict(n=14, p=5, uniform=False, jitter=0.0), dict(n=8, p=1, uniform=False, jitter=1.0), dict(n=16, p=3, uniform=True),
             dict(n=11, p=4, uniform=False, jitter=1.0), dict(n=20, p=3, uniform=True)]
     modes = ['fEq', 'null', 'periodic']
-    nrep = 8 if quick else 60
+    nrep = 20 if quick else 150
     k = 0
     for rep in range(nrep):
         for mode in modes:
@@ -634,10 +634,11 @@ def c11_gen(tier, rng):
             W = vmax - vmin
             h = W / (ax['n'] - ax['p'])
             # shifts in units of the domain width: 0, sub-cell, cells, most of the domain, exactly one width, several widths
-            rel = [0.0, 0.13 * h / W, -0.4 * h / W, 1.7 * h / W, -2.2 * h / W, 0.37, -0.61, 0.999, 1.0, -1.0, 1.45, -2.3, 3.0, 5.2]
+            groups = [[0.13 * h / W, -0.4 * h / W, 1.7 * h / W, -2.2 * h / W], [0.37, -0.61, 0.999, -0.999, 1.0, -1.0],
+                      [1.45, 2.3, 3.0, 5.2], [-1.45, -2.3, -3.0, -5.2], [0.0, 0.5, -1.0 - 0.5 * h / W, 2.0 + 0.3 * h / W]]
             steps = []
-            for _ in range(4):
-                sft = rel[int(rng.integers(0, len(rel)))] * W
+            for grp in [groups[i] for i in rng.permutation(len(groups))]:
+                sft = grp[int(rng.integers(0, len(grp)))] * W
                 if rng.integers(0, 2):
                     c = float(rng.choice([-2.0, -0.5, 0.25, 1.0, 3.0]))
                     dt = float(sft / c)
@@ -709,7 +710,7 @@ class C12Ref:
         self.all_inside = (r1 > self.rlo) & (r1 < self.rhi) & (rf > self.rlo) & (rf < self.rhi)
         return qf, rf, ~(self.near(r1) | self.near(rf))
 
-    def feet_implicit(self, Cphi, dt, maxit=400):
+    def feet_implicit(self, Cphi, dt, maxit=400, hist=None):
         """Fixed point of x* = x + dt/2 (D(x) + D(x*)), started from the Euler predictor; feet are kept inside the radial domain.
         Nodes whose iterates touch the radial boundary are flagged (their foot is on the boundary: not compared)."""
         D0q, D0r = self.drift(Cphi, self.Q, self.R)
@@ -726,7 +727,9 @@ class C12Ref:
             dq = np.minimum(dq, TWO_PI - dq)
             diff = np.maximum(dq, np.abs(r2 - r1))
             q1, r1 = q2, r2
-            if not (~touched).any() or diff[~touched].max() < 1e-14:
+            if hist is not None:
+                hist.append(float(diff.max()))          # the quantity the stopping rule of the scheme looks at (all nodes)
+            elif not (~touched).any() or diff[~touched].max() < 1e-14:
                 break
         return q1, r1, ~touched, its
 
@@ -807,6 +810,13 @@ def c12_compare(ck, name, got, ref, Cphi, Cf, dt, v, nul, K, explicit, tol_impl,
     want = ref.values(Cf, qf, rf, v, nul, K)
     ck.close(name + ' [%d of %d nodes compared, %d feet outside]' % (int(okm.sum()), okm.size, int(((rf < ref.rlo) | (rf > ref.rhi)).sum())),
              got, want, scale + extra / RTOL, mask=okm)
+    out = okm & ((rf < ref.rlo) | (rf > ref.rhi))
+    if out.any():
+        # boundary values are closed-form numbers: they must agree to rounding relative to their own size
+        rel = np.abs(got - want)[out] / np.maximum(np.abs(want[out]), 1e-300)
+        rel = np.where(want[out] == 0.0, np.abs(got[out]), rel)
+        ck.add(name + ' [boundary values, %d nodes]' % int(out.sum()), bool((rel <= 1e-10).all()),
+               'largest relative deviation of a boundary value %.3e (expected zero / f_eq(r_min,v) / f_eq(r_foot,v))' % float(rel.max()))
     return qf, rf, okm
 
 
@@ -836,11 +846,13 @@ def c12_trace_case(case):
                 try:
                     with_timeout(case.get('limit', 60), run)
                 except Timeout:
-                    its = ref.feet_implicit(Cphi, dt)[3]
+                    h = []
+                    ref.feet_implicit(Cphi, dt, maxit=3000, hist=h)
                     ck.add('step %d implicit iteration terminates' % k, False,
-                           'no return within %d s (a terminating call takes < 0.2 s); dt=%g, |dt|/2*max||grad drift|| = %.2f; the reference fixed-point '
-                           'iteration %s' % (case.get('limit', 60), dt, 0.5 * abs(dt) * ref.jac_bound(Cphi),
-                                             'does not converge either (400 sweeps)' if its >= 400 else 'converges in %d sweeps' % its))
+                           'no return within %d s (about 1000 sweeps on this grid); dt=%g, |dt|/2*max||grad drift|| = %.2f; in the reference '
+                           'fixed-point iteration the largest change per sweep is %.2e after 1000, %.2e after 2000, %.2e after 3000 sweeps (stopping '
+                           'tolerance %.0e)' % (case.get('limit', 60), dt, 0.5 * abs(dt) * ref.jac_bound(Cphi), min(h[900:1000]), min(h[1900:2000]),
+                                                min(h[2900:3000]), tol_impl))
                     break
                 ck.add('step %d implicit iteration terminates' % k, True)
             scale = 1.0 + np.abs(prev).max()
@@ -1003,12 +1015,19 @@ def c12_scale_dt(case_base, spec, seed_off, target_cells=None, frac=None):
     return min(frac / J, 4.0 / speed), J          # also at most 4 cells, so that a nearly rigid flow does not give an absurd dt
 
 
-def c12_reference_converges(case_base, spec, dt):
+def c12_reference_cycles(case_base, spec, dt):
+    """True if the reference fixed-point iteration provably stalls: over 1500 sweeps the largest change per sweep stops
+    decreasing and stays above 1e-4 (a limit cycle), so no stopping tolerance near 1e-10 can ever be met."""
     ath, ar, bth, br = c12_axes(case_base)
     theta, r = c12_greville(Sp1(bth, ath['p'], True)), c12_greville(Sp1(br, ar['p'], False))
     ref = C12Ref(bth, ath['p'], br, ar['p'], theta, r, float(case_base.get('consts', {}).get('B0', 1.0)))
     Cphi = ref.fit(c12_phi_nodal(spec, theta, r, np.random.default_rng(case_base['dseed'])))
-    return ref.feet_implicit(Cphi, dt)[3] < 400
+    if ref.feet_implicit(Cphi, dt, maxit=300)[3] < 300:
+        return False
+    h = []
+    ref.feet_implicit(Cphi, dt, maxit=1500, hist=h)
+    a, b = min(h[500:1000]), min(h[1000:1500])
+    return b > 1e-4 and b >= 0.99 * a
 
 
 def c12_greville(s):
@@ -1042,7 +1061,7 @@ def c12_gen(tier, rng):
         return dict(theta=a, rax=b, rmin=lo, rmax=hi, consts=consts, dseed=int(rng.integers(0, 2 ** 30)))
 
     # general tracing, explicit: displacements from sub-cell to several cells (feet leave the domain for the larger ones)
-    ntr = 8 if quick else 60
+    ntr = 16 if quick else 150
     for k in range(ntr):
         c = base(k)
         steps = []
@@ -1053,7 +1072,7 @@ def c12_gen(tier, rng):
         c.update(kind='trace', nul=bool(k % 2), schemes=[True], steps=steps, fkind=['random', 'smooth', 'maxwell'][k % 3])
         cases.append(c)
     # general tracing, implicit (contractive regime |dt|/2 ||J_D|| <= 0.5), with and without feet leaving the domain
-    nim = 6 if quick else 40
+    nim = 10 if quick else 90
     for k in range(nim):
         c = base(k + 1)
         steps = []
@@ -1064,23 +1083,8 @@ def c12_gen(tier, rng):
         c.update(kind='trace', nul=bool(k % 2), schemes=[False], steps=steps, fkind=['random', 'smooth'][k % 2],
                  tol=[None, 1e-12, 1e-8][k % 3], limit=60)
         cases.append(c)
-    # implicit scheme outside the contractive regime (|dt|/2 ||J_D|| about 2): the statement still promises termination.
-    # Only potentials for which the reference fixed-point iteration itself fails to converge are kept.
-    want, tries = (1 if quick else 3), 0
-    while want and tries < 40:
-        tries += 1
-        c = base(2 * tries)
-        c['rmin'], c['rmax'] = 2.0, 3.0
-        spec = dict(nmodes=2, amp=1.0, mmin=1, mmax=2, noise=0.0, omega=0.2)
-        dt, J = c12_scale_dt(c, spec, 0, frac=1.0)
-        dt = 4.5 / J
-        if c12_reference_converges(c, spec, dt):
-            continue
-        c.update(kind='trace', stiff=True, nul=True, schemes=[False], steps=[[float(dt), 0.0, spec]], fkind='smooth', tol=None, limit=10)
-        cases.append(c)
-        want -= 1
     # exact solutions
-    nex = 4 if quick else 18
+    nex = 6 if quick else 36
     for k in range(nex):
         c = base(k)
         c.update(kind='exact', what='const', value=float([0.0, 1.5, -7.0][k % 3]), nul=bool(k % 2), schemes=[True, False],
@@ -1096,7 +1100,7 @@ def c12_gen(tier, rng):
         c.update(kind='exact', what='rot', omega=om, value=float(k % 2) * 3.0, nul=bool(k % 2), schemes=[True, False], runs=runs, cells=cells)
         cases.append(c)
     # explicit vs implicit: third order
-    for k in range(2 if quick else 8):
+    for k in range(3 if quick else 16):
         c = base(2 * k)      # even k: keeps degree >= 3 bases
         c['theta'] = dict(n=12, p=[3, 3, 5, 4][k % 4], uniform=(k % 2 == 0), jitter=0.0, jseed=0)
         c['rax'] = dict(n=12, p=[3, 3, 5, 4][k % 4], uniform=(k % 2 == 0), jitter=0.0, jseed=0)
@@ -1117,6 +1121,25 @@ def c12_gen(tier, rng):
         c.update(kind='grid', nul=bool(k % 2), explicit=bool((k + 1) % 2), phi=spec, dt=float(dt), dt2=float(-0.7 * dt), nz=nzp,
                  vgrid=np.linspace(-2.0, 2.0, max(pg[0], 2) + 1).tolist(), nprocs=list(pg))
         cases.append(c)
+    # implicit scheme outside the contractive regime (|dt|/2 ||J_D|| about 2): the statement still promises termination.
+    # Only potentials for which the reference fixed-point iteration itself fails to converge are kept.
+    cases.append(dict(kind='trace', stiff=True, theta=dict(n=10, p=5, uniform=False, jitter=0.0, jseed=162800),
+                      rax=dict(n=11, p=5, jseed=981721, uniform=False), rmin=2.0, rmax=3.0, consts=dict(B0=0.5), dseed=791418152, nul=True,
+                      schemes=[False], steps=[[0.6756014114350134, 0.0, dict(nmodes=2, amp=1.0, mmin=1, mmax=2, noise=0.0, omega=0.2)]],
+                      fkind='smooth', tol=None, limit=8))
+    want, tries = (0 if quick else 2), 0
+    while want and tries < 15:
+        tries += 1
+        c = base(2 * tries)
+        c['rmin'], c['rmax'] = 2.0, 3.0
+        spec = dict(nmodes=2, amp=1.0, mmin=1, mmax=2, noise=0.0, omega=0.2)
+        dt, J = c12_scale_dt(c, spec, 0, frac=1.0)
+        dt = 4.5 / J
+        if dt > 8.0 * c12_scale_dt(c, spec, 0, target_cells=1.0)[0] or not c12_reference_cycles(c, spec, dt):
+            continue                      # keep moderate displacements (at most 8 cells) for which the reference iteration cycles
+        c.update(kind='trace', stiff=True, nul=True, schemes=[False], steps=[[float(dt), 0.0, spec]], fkind='smooth', tol=None, limit=8)
+        cases.append(c)
+        want -= 1
     return cases
 
 
@@ -1286,7 +1309,7 @@ def c13_gen(tier, rng):
             dict(n=7, p=2, uniform=False, jitter=1.0), dict(n=8, p=4, uniform=False, jitter=1.0), dict(n=6, p=1, uniform=False),
             dict(n=12, p=3, uniform=True)]
     lay = [([1], [0]), ([2], [0]), ([2], [1]), ([3], [1]), ([3], [2]), ([4], [3]), ([2, 2], [1, 0]), ([3, 2], [2, 1])]
-    reps = 2 if quick else 10
+    reps = 6 if quick else 40
     k = 0
     for rep in range(reps):
         for order in (2, 3, 4, 5, 6, None):
@@ -1301,7 +1324,7 @@ def c13_gen(tier, rng):
                               R0=R0, iota=float([0.8, 0.0, -1.3, 2.0][k % 4]), r=np.sort(rng.uniform(0.1, 14.5, nr)).tolist(),
                               order=order, nprocs=list(nprocs), rank=list(rank), layout4=len(nprocs) == 2, dseed=int(rng.integers(0, 2 ** 31))))
             k += 1
-    for k in range(5 if quick else 20):
+    for k in range(10 if quick else 40):
         order = 2 + k % 5
         comm = k % 2 == 0
         nq = [8, 12, 16][k % 3]
